@@ -594,7 +594,7 @@ def run(ctx):
     for origin, x in values:
         dx = dump(x, nan_bits=True)
         dx_typed = dump(x, sizes=False)
-        case = {"value": dx if len(dx) < 400 else dx[:400] + "...", "origin": origin}
+        case = {"value": dx, "origin": origin}
         packed = real_pack(opack, x)
         ctx.note("depth:%d" % depth_of(x))
         if isinstance(packed, Exception):
@@ -606,7 +606,7 @@ def run(ctx):
             continue
         nontrivial = any(0xA0 <= b <= 0xC4 for b in packed[:1]) or len(packed) > 34 or b"\x03" in packed[-1:] or any(
             0xA0 <= b <= 0xC4 for b in packed[1:64])
-        ctx.case(["pack", dx], nontrivial, sample={"value": case["value"], "packed": packed.hex()[:200]})
+        ctx.case(["pack", dx], nontrivial, sample={"value": dx[:300], "packed": packed.hex()[:200]})
         ctx.note("packed-len:%s" % ("1" if len(packed) == 1 else "<=34" if len(packed) <= 34 else "<=258" if len(packed) <= 258 else "<=65539" if len(packed) <= 65539 else "big"))
 
         def on_pack(ans, case=case, packed=packed):
@@ -679,8 +679,9 @@ def run(ctx):
         for f in var.features:
             ctx.note("variant:" + f)
         dx_typed = dump(x, sizes=False)
-        case = {"variant_of": dx_typed[:300], "stream": stream.hex()[:400], "features": sorted(var.features)}
-        ctx.case(["variant", stream.hex()], True, sample=case if i < 3 else None)
+        case = {"variant_of": dx_typed, "stream": stream.hex(), "features": sorted(var.features)}
+        ctx.case(["variant", stream.hex()], True,
+                 sample={"variant_of": dx_typed[:300], "stream": stream.hex()[:300], "features": sorted(var.features)} if i < 3 else None)
         res = real_unpack(opack, stream)
         if "duplicate-in-full" not in var.features and not has_nan_key(x):
             if res[0] != "ok":
@@ -726,7 +727,7 @@ def run(ctx):
         if res == ("err", "recursion"):
             continue
         ctx.note("malformed:" + res[0] + (":" + res[1] if res[0] == "err" else ""))
-        case = {"malformed": stream.hex()[:400], "kind": kind}
+        case = {"malformed": stream.hex(), "kind": kind}
         ctx.case(["malformed", stream.hex()], res[0] == "err")
 
         def on_mal(ans, case=case, res=res):
@@ -803,16 +804,22 @@ def replay(ctx, failure):
             return True
     if "stream" in case:
         res = real_unpack(opack, bytes.fromhex(case["stream"]))
-        return res[0] != "ok" or dump(res[1], sizes=False)[:300] != case["variant_of"]
-    if "value" in case and not case["value"].endswith("..."):
+        return res[0] != "ok" or dump(res[1], sizes=False) != case["variant_of"] or res[2] != b""
+    if "value" in case:
         x = parse_dump(case["value"], opack)
         packed = real_pack(opack, x)
         if isinstance(packed, Exception):
             return True
-        if "documentation" in failure.get("what", "") and "reader" not in failure.get("what", ""):
+        if sig == SIG_DOC_DATA or sig.startswith("opack:bytes-differ"):
             try:
                 return ref_pack(x) != packed
             except RefError:
+                return True
+        if sig.startswith("opack:documented-reader"):
+            try:
+                rv, rrest = ref_unpack(packed)
+                return dump(rv, sizes=False) != dump(x, sizes=False) or bytes(rrest) != b""
+            except (RefError, ValueError, TypeError):
                 return True
         res = real_unpack(opack, packed)
         return res[0] != "ok" or dump(res[1], sizes=False) != dump(x, sizes=False) or res[2] != b""
@@ -855,3 +862,60 @@ def parse_dump(text, opack):
         raise ValueError(t)
 
     return one()
+
+
+def _children(v):
+    if type(v) is list:
+        return list(v)
+    if type(v) is dict:
+        return list(v.values())
+    return []
+
+
+def _smaller(v):
+    """candidate simplifications of a value, most aggressive first"""
+    for c in _children(v):
+        yield c
+    if type(v) is list:
+        for i in range(len(v)):
+            yield v[:i] + v[i + 1:]
+        for i, x in enumerate(v):
+            for y in _smaller(x):
+                yield v[:i] + [y] + v[i + 1:]
+    elif type(v) is dict:
+        items = list(v.items())
+        for i in range(len(items)):
+            yield dict(items[:i] + items[i + 1:])
+        for i, (k, x) in enumerate(items):
+            for y in _smaller(x):
+                yield dict(items[:i] + [(k, y)] + items[i + 1:])
+    elif type(v) in (str, bytes) and len(v) > 3 and len(v) not in (0x20, 0x21, 0xFF, 0x100, 0xFFFF, 0x10000):
+        yield v[: len(v) // 2]
+
+
+def shrink(ctx, failure):
+    """greedy structural shrinking of a failing value (re-running the real code)"""
+    from pyatv.support import opack
+
+    case = failure.get("case", {})
+    if "value" not in case:
+        return failure
+    x = parse_dump(case["value"], opack)
+    budget = 300
+    progress = True
+    while progress and budget > 0:
+        progress = False
+        for y in _smaller(x):
+            budget -= 1
+            if budget <= 0:
+                break
+            cand = dict(failure, case=dict(case, value=dump(y, nan_bits=True)))
+            try:
+                still = replay(ctx, cand)
+            except Exception:
+                still = False
+            if still:
+                x, failure, case = y, cand, cand["case"]
+                progress = True
+                break
+    return failure
